@@ -70,7 +70,7 @@ Definition grid_model_ok (c : grid_case) : bool :=
 Definition grid_spec_ok (c : grid_case) : bool :=
   let '(rtl, (cbx, W, s), ws, ipos, rows, cells) := c in
   let n := length ws in
-  close tolq W (qsum ws + s * (qnat n + 1)) &&
+  (Nat.eqb n 0 || close tolq W (qsum ws + s * (qnat n + 1))) &&     (* fixed_sum: no column at all is the exception *)
   forallb (cell_spec_ok tolq rtl ipos ws s) cells &&
   match n with
   | O => true
